@@ -201,8 +201,10 @@ func (db *DB) Get(key []byte) (kv.Entry, error) {
 
 func (db *DB) ScanPrefix(prefix []byte, errOut *error) iter.Seq[kv.Entry] {
 	sstables := db.currentSSTables()
-	iters := []iter.Seq[kv.Entry]{db.mtables.ScanPrefix(prefix, errOut), sstables.ScanPrefix(prefix, errOut)}
-	return kv.MergeEntries(iters)
+	// Deleted entries are kept until everything is merged so that a newer
+	// tombstone masks older versions of its key in older tables.
+	iters := []iter.Seq[kv.Entry]{db.mtables.ScanPrefixWithDeletes(prefix, errOut), sstables.ScanPrefixWithDeletes(prefix, errOut)}
+	return kv.WithoutDeletes(kv.MergeEntries(iters))
 }
 
 // Checkpoint initiates a DB checkpoint associated with the caller's provided
